@@ -22,10 +22,33 @@ against base().link_1'()...link_n'() built directly.  Which links an invocation 
 link present or absent) is the Python-level branching the documentation describes; the invocations of a sequence use
 different chains and fresh closure values and share all caches, so the statement cached for one path of lambdas must
 never be answered for another path.
+
+Structural closure values, role x kind ("closure values that change the SQL structure produce a different cached form").
+AnalyzedCode._cache_key_getter_closure_variable builds, once per code object, the getter that contributes a tracked closure
+variable to the cache key, with one branch per KIND of value: a HasCacheKey SQL element, an object reached through
+__clause_element__(), an object reached through inspect() (mapped class, aliased() class), a sequence of elements, a
+function.  The same clauses are therefore evaluated over sequences whose closure variable changes its value AND its kind
+between invocations of one code object, for every role the variable can play:
+  * fromobj_kinds          t in select(t.c.id, t.c.x).where(t.c.id >= v): Table, anonymous / named alias, anonymous / named subquery
+  * entity_kinds_columns   ent in select(ent.id, ent.x).where(ent.id >= v): mapped class, anonymous / named aliased() class
+  * entity_kinds_whole     ent in select(ent).where(...): same kinds, rows are entities (compared by class + column values)
+  * entity_kinds_linked    ent captured by the base lambda and by a += link
+  * entity_kinds_two       two entity variables in one lambda (class / aliased of the same or another class, swapped)
+  * column_kinds           col in select(col).order_by(col): Column, Label, InstrumentedAttribute, attribute of an aliased() class
+  * clause_element_protocol_kinds   the same with an object that only implements __clause_element__() (over a Column / an attribute)
+  * column_list_kinds      cols in select(*cols).order_by(*cols): list / tuple of Columns, of attributes, of a class, of a wrapper
+  * loader_criteria_entity with_loader_criteria(ent, lambda cls: cls.x >= v) with the entity varying
+Anonymous aliases / aliased() / subqueries are new objects at every invocation (so a getter that keeps the object of the
+first invocation is observable), literal values vary along with them.
+Termination is part of "produces a statement": every construction / execution of a lambda statement runs under a CPU-time
+limit (ITIMER_VIRTUAL, HANG_CPU_S; the calls take milliseconds); exceeding it is a `construct` / `execute` failure.  After
+such a failure the extensions of the failing prefix are skipped (they replay the same prefix from empty caches).
 """
+import contextlib
 import itertools
 import json
 import multiprocessing
+import signal
 import time
 import warnings
 
@@ -96,7 +119,64 @@ def resolve(d):
         return d[4:]
     if isinstance(d, dict) and "list" in d:
         return [resolve(x) for x in d["list"]]
+    if isinstance(d, dict) and "tuple" in d:
+        return tuple(resolve(x) for x in d["tuple"])
+    if isinstance(d, str) and d.split(":")[0] in STRUCTURAL_KINDS:
+        return STRUCTURAL_KINDS[d.split(":")[0]](ev, *d.split(":")[1:])
     return d            # int / None / bool
+
+
+class Wrapper:
+    """neither a ClauseElement nor a HasCacheKey nor inspectable: only the documented __clause_element__() protocol"""
+
+    def __init__(self, col):
+        self.col = col
+
+    def __clause_element__(self):
+        return self.col
+
+
+def _k_alias(ev, t, name=None):
+    return ev[t].alias(name)            # anonymous when no name: a fresh object per invocation, rendered a_1 / b_1
+
+
+def _k_subq(ev, t, name=None):
+    from sqlalchemy import select
+    return select(ev[t]).subquery(name)
+
+
+def _k_cls(ev, c):
+    return ev[c]
+
+
+def _k_aliased(ev, c, name=None):
+    from sqlalchemy.orm import aliased
+    return aliased(ev[c], name=name)
+
+
+def _k_aattr(ev, spec, name=None):
+    c, attr = spec.split(".")
+    return getattr(_k_aliased(ev, c, name), attr)
+
+
+def _k_wrap(ev, spec):
+    t, c = spec.split(".")
+    return Wrapper(ev[t].c[c])
+
+
+def _k_wrapattr(ev, spec):
+    t, c = spec.split(".")
+    return Wrapper(getattr(ev[t], c))
+
+
+def _k_label(ev, spec, name):
+    t, c = spec.split(".")
+    return ev[t].c[c].label(name)
+
+
+# descriptor prefix -> builder of a structural (SQL-shape determining) closure value; see the module docstring
+STRUCTURAL_KINDS = {"alias": _k_alias, "subq": _k_subq, "cls": _k_cls, "aliased": _k_aliased, "aattr": _k_aattr, "wrap": _k_wrap, "wrapattr": _k_wrapattr,
+                    "label": _k_label}
 
 
 # ---- the catalogue of lambda shapes.  Every lambda literal below is ONE code object for the life of the process.
@@ -224,6 +304,50 @@ def shape_loader_criteria_in(v):
             select(A.id).order_by(A.id).options(with_loader_criteria(A, A.x.in_(v))))
 
 
+# ---- structural closure values by role (what the closure variable is used as) x kind (what sort of object it holds)
+def shape_fromobj(t, v):
+    from sqlalchemy import select, lambda_stmt
+    return (lambda_stmt(lambda: select(t.c.id, t.c.x).where(t.c.id >= v).order_by(t.c.id)),
+            select(t.c.id, t.c.x).where(t.c.id >= v).order_by(t.c.id))
+
+
+def shape_entity_columns(ent, v):
+    from sqlalchemy import select, lambda_stmt
+    return (lambda_stmt(lambda: select(ent.id, ent.x).where(ent.id >= v).order_by(ent.id)),
+            select(ent.id, ent.x).where(ent.id >= v).order_by(ent.id))
+
+
+def shape_entity_whole(ent, v):
+    from sqlalchemy import select, lambda_stmt
+    return (lambda_stmt(lambda: select(ent).where(ent.id >= v).order_by(ent.id)),
+            select(ent).where(ent.id >= v).order_by(ent.id))
+
+
+def shape_entity_linked(ent, v):
+    from sqlalchemy import select, lambda_stmt
+    st = lambda_stmt(lambda: select(ent.id, ent.x))
+    st += lambda s: s.where(ent.id >= v).order_by(ent.id)
+    return st, select(ent.id, ent.x).where(ent.id >= v).order_by(ent.id)
+
+
+def shape_entity_two(ent, other):
+    from sqlalchemy import select, lambda_stmt
+    return (lambda_stmt(lambda: select(ent.id, other.id).where(ent.id == other.id).order_by(ent.id)),
+            select(ent.id, other.id).where(ent.id == other.id).order_by(ent.id))
+
+
+def shape_column_list(cols):
+    from sqlalchemy import select, lambda_stmt
+    return (lambda_stmt(lambda: select(*cols).order_by(*cols)), select(*cols).order_by(*cols))
+
+
+def shape_loader_criteria_entity(ent, v):
+    from sqlalchemy import select
+    from sqlalchemy.orm import with_loader_criteria
+    return (select(A.id, B.id).where(A.id == B.id).order_by(A.id).options(with_loader_criteria(ent, lambda cls: cls.x >= v)),
+            select(A.id, B.id).where(A.id == B.id).order_by(A.id).options(with_loader_criteria(ent, ent.x >= v)))
+
+
 # ---- linked chains: lambda_stmt(base) += link += link ...   Every link below is ONE lambda literal = one code object.
 def _base_lambda():
     from sqlalchemy import select, lambda_stmt
@@ -320,7 +444,21 @@ SHAPES = {
     "orm_attr_from_closure": (shape_orm_attr_from_closure, [["attr:A.x", 0], ["attr:A.id", 2], ["attr:B.x", 1], ["attr:A.x", 2]], True),
     "loader_criteria": (shape_loader_criteria, [[0], [1], [2]], True),
     "loader_criteria_in": (shape_loader_criteria_in, [[{"list": [0]}], [{"list": [1, 2]}], [{"list": [0, 1, 2]}]], True),
+    # structural closure values: role x kind
+    "fromobj_kinds": (shape_fromobj, [["tbl:a", 0], ["tbl:b", 1], ["alias:a", 1], ["alias:b", 0], ["alias:a:nm", 2], ["subq:a", 1], ["subq:b:nm", 0]], False),
+    "entity_kinds_columns": (shape_entity_columns, [["cls:A", 0], ["cls:B", 1], ["aliased:A", 1], ["aliased:B", 0], ["aliased:A:nm", 2], ["cls:A", 2]], True),
+    "entity_kinds_whole": (shape_entity_whole, [["cls:A", 0], ["cls:B", 1], ["aliased:A", 1], ["aliased:B", 0], ["aliased:B:nm", 2]], True),
+    "entity_kinds_linked": (shape_entity_linked, [["cls:A", 0], ["cls:B", 1], ["aliased:A", 1], ["aliased:B", 0], ["aliased:A:nm", 2], ["cls:B", 0]], True),
+    "entity_kinds_two": (shape_entity_two, [["cls:A", "cls:B"], ["cls:B", "cls:A"], ["aliased:A", "cls:A"], ["cls:A", "aliased:A"], ["aliased:B", "aliased:A"], ["cls:B", "aliased:B:nm"]], True),
+    "column_kinds": (shape_column, [["col:a.id"], ["col:b.x"], ["attr:A.x"], ["attr:B.x"], ["aattr:A.x"], ["aattr:B.x:nm"], ["label:a.x:lx"], ["label:b.x:lx"]], True),
+    "clause_element_protocol_kinds": (shape_column, [["wrap:a.x"], ["wrap:b.x"], ["wrapattr:A.id"]], True),
+    "column_list_kinds": (shape_column_list, [[{"list": ["col:a.id", "col:a.x"]}], [{"list": ["col:a.x", "col:a.id"]}], [{"list": ["col:b.id", "col:b.x"]}],
+                                              [{"tuple": ["col:a.id", "col:a.x"]}], [{"list": ["attr:A.id", "attr:A.x"]}], [{"list": ["attr:B.x"]}],
+                                              [{"list": ["cls:A"]}], [{"list": ["wrap:a.x", "col:a.id"]}]], True),
+    "loader_criteria_entity": (shape_loader_criteria_entity, [["cls:A", 0], ["cls:B", 1], ["cls:A", 2], ["cls:B", 0]], True),
 }
+STRUCTURAL_SHAPES = ["fromobj_kinds", "entity_kinds_columns", "entity_kinds_whole", "entity_kinds_linked", "entity_kinds_two", "column_kinds",
+                     "clause_element_protocol_kinds", "column_list_kinds", "loader_criteria_entity"]
 CHAIN = "linked_chain"          # its sequences come from chain_sequences(), not from a value pool
 SHAPES[CHAIN] = (shape_linked_chain, None, False)
 
@@ -330,6 +468,14 @@ def reset_caches():
     lambdas.AnalyzedCode._fns.clear()
     lambdas._closure_per_cache_key.clear()
     env()["e"].clear_compiled_cache()
+
+
+def _norm(v):
+    """a mapped instance in a row -> [class name, its column values] (instances of two executions are never identical objects)"""
+    st = getattr(v, "_sa_instance_state", None)
+    if st is None:
+        return v
+    return [type(v).__name__] + [getattr(v, c.key) for c in st.mapper.column_attrs]
 
 
 def execute(stmt, orm, cache):
@@ -342,7 +488,7 @@ def execute(stmt, orm, cache):
         if orm:
             from sqlalchemy.orm import Session
             with Session(ev["conn"]) as s:
-                rows = [list(r) for r in s.execute(stmt, execution_options=opts).all()]
+                rows = [[_norm(c) for c in r] for r in s.execute(stmt, execution_options=opts).all()]
         else:
             rows = [list(r) for r in ev["conn"].execute(stmt, execution_options=opts).all()]
     finally:
@@ -352,6 +498,32 @@ def execute(stmt, orm, cache):
         except Exception:  # noqa: BLE001
             pass
     return _CAP["log"], rows
+
+
+HANG_CPU_S = 1.5        # CPU seconds (ITIMER_VIRTUAL: independent of machine load); building + executing a statement takes milliseconds
+
+
+class _Hang(BaseException):
+    """not an Exception: nothing in the code under test may swallow or wrap it"""
+
+
+def _on_vtalrm(signum, frame):
+    raise _Hang()
+
+
+@contextlib.contextmanager
+def cpu_limit(seconds=HANG_CPU_S):
+    """the call under contract must return: an endless loop becomes a contract failure instead of a check that never ends"""
+    old = signal.signal(signal.SIGVTALRM, _on_vtalrm)
+    signal.setitimer(signal.ITIMER_VIRTUAL, seconds)
+    try:
+        yield
+    finally:
+        signal.setitimer(signal.ITIMER_VIRTUAL, 0)
+        signal.signal(signal.SIGVTALRM, old)
+
+
+HANG_MSG = "Hang: no return within %.1f s of CPU time" % HANG_CPU_S
 
 
 def run_sequence(shape, seq):
@@ -365,7 +537,10 @@ def run_sequence(shape, seq):
         vals = [resolve(x) for x in args]
         desc = dict(shape=shape, sequence=seq, invocation=i, args=args)
         try:
-            lam, plain = builder(*vals)
+            with cpu_limit():
+                lam, plain = builder(*vals)
+        except _Hang:
+            return i + 1, dict(desc, clause="construct", expected="statement or documented refusal", got=HANG_MSG), outcomes
         except (sa_exc.InvalidRequestError, sa_exc.ArgumentError) as e:
             outcomes.append("refused:" + type(e).__name__)
             continue
@@ -377,7 +552,10 @@ def run_sequence(shape, seq):
             outcomes.append("plain-fails:" + type(e).__name__)
             continue
         try:
-            got_sql, got_rows = execute(lam, orm, cache=True)
+            with cpu_limit():
+                got_sql, got_rows = execute(lam, orm, cache=True)
+        except _Hang:
+            return i + 1, dict(desc, clause="execute", expected=want_sql, got=HANG_MSG), outcomes
         except (sa_exc.InvalidRequestError, sa_exc.ArgumentError) as e:
             outcomes.append("refused:" + type(e).__name__)
             continue
@@ -403,11 +581,16 @@ def sequences_for(shape, length):
 
 def _work(task):
     shape, seqs = task
-    inv = nseq = nontriv = refused = 0
+    inv = nseq = nontriv = refused = skipped = 0
     fails = {}
-    sqls = set()
+    hung = set()
     for seq in seqs:
+        if any(json.dumps(seq[:i + 1]) in hung for i in range(len(seq))):
+            skipped += 1        # a sequence is a self-contained replay: it would spend HANG_CPU_S in the same invocation of the same prefix again
+            continue
         n, f, outcomes = run_sequence(shape, seq)
+        if f is not None and f["got"] == HANG_MSG:
+            hung.add(json.dumps(seq[:f["invocation"] + 1]))
         inv += n
         nseq += 1
         refused += sum(1 for o in outcomes if o.startswith("refused"))
@@ -418,7 +601,7 @@ def _work(task):
             lst = fails.setdefault(cls, [])
             if len(lst) < 3:
                 lst.append(f)
-    return dict(shape=shape, invocations=inv, sequences=nseq, nontrivial=nontriv, refused=refused, fails=[x for l in fails.values() for x in l],
+    return dict(shape=shape, invocations=inv, sequences=nseq, nontrivial=nontriv, refused=refused, skipped_after_hang=skipped, fails=[x for l in fails.values() for x in l],
                 nfails=sum(len(l) for l in fails.values()))
 
 
@@ -435,7 +618,7 @@ def run(run, tier, seed, args):
                 random.Random(seed).shuffle(seqs)
             k = max(1, len(seqs) // 256)
         else:
-            seqs = sequences_for(shape, length)
+            seqs = sequences_for(shape, min(length, 4) if shape in STRUCTURAL_SHAPES else length)
             k = max(1, len(seqs) // 8)
         tasks += [(shape, seqs[i:i + k]) for i in range(0, len(seqs), k)]
     with multiprocessing.get_context("fork").Pool(min(16, multiprocessing.cpu_count())) as pool:
@@ -465,7 +648,8 @@ def run(run, tier, seed, args):
                            reason="lambda statement differs from the directly built statement for the current closure values"))
     samples = []
     chain_sample = [[[["wx", 1], ["ord"], ["lim", 4]]], [[["win", {"list": [1, 4]}], ["ord"], ["lim", 2]]], [[["wx", 2], ["win", {"list": [2, 3, 5]}], ["ord"], ["lim", 5]]]]
-    for shape, seq in (("column_from_closure", [["col:a.id"], ["col:b.x"], ["col:a.id"]]), ("in_list", [[{"list": [0]}], [{"list": [1, 2]}], [{"list": []}]]), (CHAIN, chain_sample)):
+    for shape, seq in (("column_from_closure", [["col:a.id"], ["col:b.x"], ["col:a.id"]]), ("in_list", [[{"list": [0]}], [{"list": [1, 2]}], [{"list": []}]]), (CHAIN, chain_sample),
+                       ("entity_kinds_linked", [["cls:A", 0], ["aliased:B", 0], ["cls:B", 1]])):
         n, f, outcomes = run_sequence(shape, seq)
         lam, plain = SHAPES[shape][0](*[resolve(x) for x in seq[-1]])
         sent, rows = execute(lam, SHAPES[shape][2], cache=True)
@@ -474,22 +658,26 @@ def run(run, tier, seed, args):
         run.crashes.append("C17: vacuous run")
     run.coverage.update(
         evaluations=inv, sequences=nseq, distinct_nontrivial=nontriv, refused_invocations=refused,
+        structural_kind_sequences={sh: sum(r["sequences"] for r in results if r["shape"] == sh) for sh in STRUCTURAL_SHAPES},
+        structural_kind_sequences_nontrivial={sh: sum(r["nontrivial"] for r in results if r["shape"] == sh) for sh in STRUCTURAL_SHAPES},
+        sequences_skipped_after_hang=sum(r["skipped_after_hang"] for r in results),
         chain_scope=chain_scope, chain_invocations=sum(r["invocations"] for r in results if r["shape"] == CHAIN),
-        rule="every sequence of 1..%d argument tuples from each shape's pool, and every linked-chain sequence of chain_scope (exhaustive; distinct by construction); one evaluation = one invocation "
+        rule="every sequence of 1..%d argument tuples from each shape's pool (1..min(%d, 4) for the structural role x kind shapes), and every linked-chain sequence of chain_scope (exhaustive; distinct by construction); one evaluation = one invocation "
              "(lambda statement and direct statement both executed, SQL + parameters + rows compared); a sequence is non-trivial when it contains at least two "
-             "different argument tuples and at least one invocation compared equal (i.e. was not refused)" % length,
+             "different argument tuples and at least one invocation compared equal (i.e. was not refused)" % (length, length),
         samples=samples, exhaustive=True,
         scope="%d lambda shapes %s x all invocation sequences of length <= %d over their value pools (scalars, None, strings, lists for IN of length 0..3, "
               "columns / tables / ORM attributes / subqueries from the closure, module global, object attribute with and without track_on, nested += criteria, "
-              "with_loader_criteria lambdas); caches (AnalyzedCode._fns, _closure_per_cache_key, engine compiled cache) emptied before each sequence and shared "
+              "with_loader_criteria lambdas; structural closure values by role x kind - shapes %s - with pools %s); caches (AnalyzedCode._fns, _closure_per_cache_key, engine compiled cache) emptied before each sequence and shared "
               "within it; linked chains lambda_stmt(base) += link... : all %d chains of <= %d links after the base over the link pool %s, all %d ordered pairs (X, Y) invoked as X, Y, X, Y (X, Y, X when a chain has 4 links) "
               "and all %d ordered triples of different chains of <= 2 links, fresh closure values at every invocation; SQLite, qmark rendering"
-              % (len(SHAPES) - 1, [x for x in SHAPES if x != CHAIN], length, chain_scope["chains"], chain_scope["max_links_after_base"], chain_scope["links"], chain_scope["pair_sequences"], chain_scope["triple_sequences"]),
+              % (len(SHAPES) - 1, [x for x in SHAPES if x != CHAIN], length, STRUCTURAL_SHAPES, {sh: SHAPES[sh][1] for sh in STRUCTURAL_SHAPES}, chain_scope["chains"], chain_scope["max_links_after_base"], chain_scope["links"], chain_scope["pair_sequences"], chain_scope["triple_sequences"]),
         contract_failures=len(fails), wall_s=round(time.time() - t0, 1))
     run.assumptions += [
         "bytecode analysis is CPython-version specific (3.12 here)",
         "the directly built statement executed with compiled_cache=None is the specification of the lambda statement",
         "a documented InvalidRequestError / ArgumentError refusal is an allowed outcome (counted in refused_invocations)",
+        "a statement / execution that needs more than HANG_CPU_S = %.1f s of CPU time is judged not to return" % HANG_CPU_S,
         "outside: lambdas with enable_tracking=False / track_closure_variables=False / track_bound_values=False (documented to skip tracking), threads",
     ]
 
